@@ -463,14 +463,18 @@ Section Queue.
   Definition with_pq (st : pq_state) (b : B bk) : pq_state := mkPQ b (q_map st) (q_counter st).
 
   (* except IndexError: default given -> return it, else raise IndexError *)
-  Definition handler (d : option nat) (e : exn) : pq_obs :=
+  Definition handler (d : option dflt) (e : exn) : pq_obs :=
     match e with
-    | IndexError => match d with Some v => ODefault v | None => OErr IndexError end
+    | IndexError => match d with
+                    | Some (DTask t) => OTask t       (* return default: the object is also a task *)
+                    | Some (DOther v) => ODefault v
+                    | None => OErr IndexError
+                    end
     | _ => OErr e
     end.
 
   (* peek(default) *)
-  Definition q_peek (st : pq_state) (d : option nat) : pq_state * pq_obs :=
+  Definition q_peek (st : pq_state) (d : option dflt) : pq_state * pq_obs :=
     let '(b1, r) := cull (b_size bk (q_pq st)) (q_pq st) in
     let st1 := with_pq st b1 in
     match r with
@@ -485,7 +489,7 @@ Section Queue.
     end.
 
   (* pop(default) *)
-  Definition q_pop (st : pq_state) (d : option nat) : pq_state * pq_obs :=
+  Definition q_pop (st : pq_state) (d : option dflt) : pq_state * pq_obs :=
     let '(b1, r) := cull (b_size bk (q_pq st)) (q_pq st) in
     let st1 := with_pq st b1 in
     match r with
